@@ -328,28 +328,37 @@ Definition phase_obligations : list (string * okind * option pkind * string * st
   ("P1", OWriter, Some PResolveIter, "src/asm/resolver/assert.rs :: resolve_assert; resolver/*.rs `did not converge`; resolver/instruction.rs :: resolve_encoding",
    "NOT assumed quiet: `assertion failed` and the `did not converge` family are pushed while the function goes on and may return Ok; this is why the shape needs report.stop_at_errors()? before `output` is built");
   ("FS1", OFileServer, None, "src/util/fileserver.rs :: FileServerReal::{get_handle, get_bytes, write_bytes}, FileServerMock::get_handle",
-   "every Err(()) of a file server follows report_error(..): unreadable inputs and unwritable outputs are loud")
+   "every Err(()) of a file server follows report_error(..): unreadable inputs and unwritable outputs are loud");
+  ("PR1", OFileServer, None, "src/driver.rs :: print_line, print_usage, print_version_short, print_version_full; src/diagn/report.rs :: print_all",
+   "print_line reports `could not write to the standard output` before its Err(()) and the driver has no println! left [table obligations c03_print_line_reports, c03_driver_println_free]; print_all does not unwrap the result of a write on the diagnostic stream [c03_print_all_ignores_write_errors]")
 ].
 
 Close Scope string_scope.
 
 (* ------------------------------------------------------------------ driver::assemble_with_command, drive, main *)
+(* Everything the driver prints goes through print_line(report, text) -> Result: writeln! + flush on stdout; on failure
+   report.error("could not write to the standard output") and Err(()).  `print_try` = the call is followed by `?`;
+   print_try = false stands for the former println!, which PANICS when the stream cannot be written. *)
 Inductive dstep :=
-| DHelp                      (* if command.show_help { print_usage; return Ok } *)
-| DVersion                   (* if command.show_version { print_version; return Ok } *)
-| DNoInput                   (* if input_filenames.len() < 1 { report.error; return Err } *)
-| DAssemble                  (* let assembly = asm::assemble(report, opts, fileserver, inputs) *)
-| DNeedOutput                (* let output = assembly.output.as_ref().ok_or(())? *)
-| DUnwrap (f : field)        (* assembly.<f>.as_ref().unwrap() / .unwrap() *)
-| DGroups (write_try : bool) (* for group { format_output; print | fileserver.write_bytes(..)[?] } *)
-| DReturnOk.                 (* Ok(assembly) *)
+| DHelp (print_try : bool)      (* if command.show_help { print_usage(..)[?]; return Ok } *)
+| DVersion (print_try : bool)   (* if command.show_version { print_version_full(..)[?]; return Ok } *)
+| DNoInput                      (* if input_filenames.len() < 1 { report.error; return Err } *)
+| DProgress (print_try : bool)  (* if !quiet { print_version_short(..)[?]; for input { print_line(`assembling ..`)[?] } } *)
+| DAssemble                     (* let assembly = asm::assemble(report, opts, fileserver, inputs) *)
+| DNeedOutput                   (* let output = assembly.output.as_ref().ok_or(())? *)
+| DUnwrap (f : field)           (* assembly.<f>.as_ref().unwrap() / .unwrap() *)
+| DGroups (print_try write_try : bool)
+                                (* for group { format_output; print_line(..)[?] | [print_line(`writing ..`)[?];] write_bytes(..)[?] } *)
+| DResolved (print_try : bool)  (* if !quiet { print_line(`resolved in ..`)[?] } *)
+| DReturnOk.                    (* Ok(assembly) *)
 
 Inductive dresult := DrOk | DrErr | DrPanic | DrDiverge | DrStuck.   (* DrStuck: a step that cannot be written in Rust (use of `assembly` before it exists) *)
 
 Record dout := {
   d_result : dresult;
   d_acts : list action;                  (* prints and writes PERFORMED, in order *)
-  d_failed_write : option text;          (* the output that could not be written *)
+  d_failed_write : option text;          (* the output file that could not be written *)
+  d_failed_print : bool;                 (* the standard output could not be written *)
   d_report : report;
   d_asm : option (aresult * report);     (* what asm::assemble returned, when it was called and returned *)
   d_clean_at_actions : bool              (* the report held no error when the group loop was entered (true when never entered) *)
@@ -376,6 +385,23 @@ Fixpoint first_unwritable (wr : text -> bool) (gs : list cgroup) : option text :
               end
   end.
 
+(* the group loop over the two oracles: wr (each output file) and out_ok (the standard output; a PERMANENT fault: either
+   every print succeeds or every print fails).  A printout group prints; a file group prints `writing ..` unless quiet, then writes. *)
+Inductive gres := GDone (acts : list action) | GWriteFailed (acts : list action) | GPrintFailed (acts : list action).
+
+Fixpoint perform_io (wr : text -> bool) (out_ok quiet : bool) (gs : list cgroup) (done : list action) : gres :=
+  match gs with
+  | [] => GDone (rev done)
+  | g :: r =>
+    match action_of g with
+    | APrint f => if out_ok then perform_io wr out_ok quiet r (APrint f :: done) else GPrintFailed (rev done)
+    | AWrite name f =>
+      if negb quiet && negb out_ok then GPrintFailed (rev done)
+      else if wr name then perform_io wr out_ok quiet r (AWrite name f :: done) else GWriteFailed (rev done)
+    | ASkip => perform_io wr out_ok quiet r (ASkip :: done)
+    end
+  end.
+
 Record dstate := {
   ds_asm : option (aresult * report);
   ds_output_seen : bool;                 (* `output` is bound: DNeedOutput passed *)
@@ -384,73 +410,88 @@ Record dstate := {
   ds_clean : bool
 }.
 
-Definition finish (st : dstate) (res : dresult) (failed : option text) (rep : report) (acts : list action) : dout :=
-  {| d_result := res; d_acts := acts; d_failed_write := failed; d_report := rep; d_asm := ds_asm st; d_clean_at_actions := ds_clean st |}.
+Definition finish (st : dstate) (res : dresult) (failed : option text) (failed_print : bool) (rep : report) (acts : list action) : dout :=
+  {| d_result := res; d_acts := acts; d_failed_write := failed; d_failed_print := failed_print; d_report := rep; d_asm := ds_asm st;
+     d_clean_at_actions := ds_clean st |}.
+
+(* a print that fails: with `?` an error is reported and Err(()) returned; without (println!) the process panics *)
+Definition print_failed (st : dstate) (print_try : bool) (acts : list action) : dout :=
+  if print_try then finish st DrErr None true (ds_report st ++ [KError]) acts
+  else finish st DrPanic None true (ds_report st) acts.
 
 (* asm: the outcome of asm::assemble for this command (run on the report as it stands) *)
-Fixpoint run_dsteps (steps : list dstep) (c : command) (wr : text -> bool) (asm : report -> aout) (st : dstate) : dout :=
+Fixpoint run_dsteps (steps : list dstep) (c : command) (wr : text -> bool) (out_ok : bool) (asm : report -> aout) (st : dstate) : dout :=
   match steps with
-  | [] => finish st DrStuck None (ds_report st) (ds_acts st)                 (* a function body must end in a value *)
-  | DHelp :: rest => if c_help c then finish st DrOk None (ds_report st) (ds_acts st) else run_dsteps rest c wr asm st
-  | DVersion :: rest => if c_version c then finish st DrOk None (ds_report st) (ds_acts st) else run_dsteps rest c wr asm st
+  | [] => finish st DrStuck None false (ds_report st) (ds_acts st)                 (* a function body must end in a value *)
+  | DHelp pt :: rest =>
+    if c_help c then (if out_ok then finish st DrOk None false (ds_report st) (ds_acts st) else print_failed st pt (ds_acts st))
+    else run_dsteps rest c wr out_ok asm st
+  | DVersion pt :: rest =>
+    if c_version c then (if out_ok then finish st DrOk None false (ds_report st) (ds_acts st) else print_failed st pt (ds_acts st))
+    else run_dsteps rest c wr out_ok asm st
   | DNoInput :: rest =>
     match c_inputs c with
-    | [] => finish st DrErr None (ds_report st ++ [KError]) (ds_acts st)
-    | _ => run_dsteps rest c wr asm st
+    | [] => finish st DrErr None false (ds_report st ++ [KError]) (ds_acts st)
+    | _ => run_dsteps rest c wr out_ok asm st
     end
+  | DProgress pt :: rest =>
+    if negb (c_quiet c) && negb out_ok then print_failed st pt (ds_acts st) else run_dsteps rest c wr out_ok asm st
   | DAssemble :: rest =>
     match asm (ds_report st) with
     | AReturn a r =>
-      run_dsteps rest c wr asm {| ds_asm := Some (a, r); ds_output_seen := false; ds_report := r; ds_acts := ds_acts st; ds_clean := ds_clean st |}
-    | APanicUnwrap | APanicAssert => finish st DrPanic None (ds_report st) (ds_acts st)
-    | ADiverge => finish st DrDiverge None (ds_report st) (ds_acts st)
+      run_dsteps rest c wr out_ok asm {| ds_asm := Some (a, r); ds_output_seen := false; ds_report := r; ds_acts := ds_acts st; ds_clean := ds_clean st |}
+    | APanicUnwrap | APanicAssert => finish st DrPanic None false (ds_report st) (ds_acts st)
+    | ADiverge => finish st DrDiverge None false (ds_report st) (ds_acts st)
     end
   | DNeedOutput :: rest =>
     match ds_asm st with
-    | None => finish st DrStuck None (ds_report st) (ds_acts st)
+    | None => finish st DrStuck None false (ds_report st) (ds_acts st)
     | Some (a, _) =>
       if r_output a
-      then run_dsteps rest c wr asm {| ds_asm := ds_asm st; ds_output_seen := true; ds_report := ds_report st; ds_acts := ds_acts st; ds_clean := ds_clean st |}
-      else finish st DrErr None (ds_report st) (ds_acts st)
+      then run_dsteps rest c wr out_ok asm {| ds_asm := ds_asm st; ds_output_seen := true; ds_report := ds_report st; ds_acts := ds_acts st; ds_clean := ds_clean st |}
+      else finish st DrErr None false (ds_report st) (ds_acts st)
     end
   | DUnwrap f :: rest =>
     match ds_asm st with
-    | None => finish st DrStuck None (ds_report st) (ds_acts st)
-    | Some (a, _) => if get a f then run_dsteps rest c wr asm st else finish st DrPanic None (ds_report st) (ds_acts st)
+    | None => finish st DrStuck None false (ds_report st) (ds_acts st)
+    | Some (a, _) => if get a f then run_dsteps rest c wr out_ok asm st else finish st DrPanic None false (ds_report st) (ds_acts st)
     end
-  | DGroups write_try :: rest =>
-    if negb (ds_output_seen st) then finish st DrStuck None (ds_report st) (ds_acts st)       (* format_output needs `output` *)
+  | DGroups pt write_try :: rest =>
+    if negb (ds_output_seen st) then finish st DrStuck None false (ds_report st) (ds_acts st)       (* format_output needs `output` *)
     else
       let st1 := {| ds_asm := ds_asm st; ds_output_seen := true; ds_report := ds_report st; ds_acts := ds_acts st;
                     ds_clean := negb (has_error (ds_report st)) |} in
       if write_try then
-        match perform wr (c_groups c) [] with
-        | ODone acts =>
-          run_dsteps rest c wr asm {| ds_asm := ds_asm st; ds_output_seen := true; ds_report := ds_report st; ds_acts := ds_acts st ++ acts; ds_clean := ds_clean st1 |}
-        | OWriteFailed acts =>
+        match perform_io wr out_ok (c_quiet c) (c_groups c) [] with
+        | GDone acts =>
+          run_dsteps rest c wr out_ok asm {| ds_asm := ds_asm st; ds_output_seen := true; ds_report := ds_report st; ds_acts := ds_acts st ++ acts; ds_clean := ds_clean st1 |}
+        | GWriteFailed acts =>
           (* FileServer::write_bytes reported (obligation FS1), `?` returns Err(()) *)
-          finish st1 DrErr (first_unwritable wr (c_groups c)) (ds_report st ++ [KError]) (ds_acts st ++ acts)
-        | _ => finish st1 DrStuck None (ds_report st) (ds_acts st)
+          finish st1 DrErr (first_unwritable wr (c_groups c)) false (ds_report st ++ [KError]) (ds_acts st ++ acts)
+        | GPrintFailed acts => print_failed st1 pt (ds_acts st ++ acts)
         end
       else
         let (acts, rep) := perform_all wr (c_groups c) in
-        run_dsteps rest c wr asm {| ds_asm := ds_asm st; ds_output_seen := true; ds_report := ds_report st ++ rep; ds_acts := ds_acts st ++ acts; ds_clean := ds_clean st1 |}
-  | DReturnOk :: _ => finish st DrOk None (ds_report st) (ds_acts st)
+        run_dsteps rest c wr out_ok asm {| ds_asm := ds_asm st; ds_output_seen := true; ds_report := ds_report st ++ rep; ds_acts := ds_acts st ++ acts; ds_clean := ds_clean st1 |}
+  | DResolved pt :: rest =>
+    if negb (c_quiet c) && negb out_ok then print_failed st pt (ds_acts st) else run_dsteps rest c wr out_ok asm st
+  | DReturnOk :: _ => finish st DrOk None false (ds_report st) (ds_acts st)
   end.
 
 Definition dstate0 (r : report) : dstate :=
   {| ds_asm := None; ds_output_seen := false; ds_report := r; ds_acts := []; ds_clean := true |}.
 
-Definition assemble_with_command (steps : list dstep) (c : command) (wr : text -> bool) (asm : report -> aout) (r0 : report) : dout :=
-  run_dsteps steps c wr asm (dstate0 r0).
+Definition assemble_with_command (steps : list dstep) (c : command) (wr : text -> bool) (out_ok : bool) (asm : report -> aout) (r0 : report) : dout :=
+  run_dsteps steps c wr out_ok asm (dstate0 r0).
 
 (* driver::drive / drive_from_commandline after getopts: parse_command reports before each Err (Model/Driver.v: every CErr names
-   the diagnostic), then assemble_with_command on the same report *)
-Definition drive (steps : list dstep) (gs : list pgroup) (wr : text -> bool) (asm : command -> report -> aout) : dout :=
+   the diagnostic), then assemble_with_command on the same report; Report::print_all afterwards ignores write errors on the
+   diagnostic stream (table obligation c03_print_all_ignores_write_errors) *)
+Definition drive (steps : list dstep) (gs : list pgroup) (wr : text -> bool) (out_ok : bool) (asm : command -> report -> aout) : dout :=
   match parse_command gs with
-  | COk c => assemble_with_command steps c wr (asm c) []
-  | CErr _ => {| d_result := DrErr; d_acts := []; d_failed_write := None; d_report := [KError]; d_asm := None; d_clean_at_actions := true |}
-  | CPanic => {| d_result := DrPanic; d_acts := []; d_failed_write := None; d_report := []; d_asm := None; d_clean_at_actions := true |}
+  | COk c => assemble_with_command steps c wr out_ok (asm c) []
+  | CErr _ => {| d_result := DrErr; d_acts := []; d_failed_write := None; d_failed_print := false; d_report := [KError]; d_asm := None; d_clean_at_actions := true |}
+  | CPanic => {| d_result := DrPanic; d_acts := []; d_failed_write := None; d_failed_print := false; d_report := []; d_asm := None; d_clean_at_actions := true |}
   end.
 
 (* src/main.rs: `if let Err(()) = maybe_result { std::process::exit(exit_on_err) }`, else main returns (status 0);
@@ -459,7 +500,13 @@ Definition exit_status (exit_on_err : N) (r : dresult) : option N :=
   match r with DrOk => Some 0%N | DrErr => Some exit_on_err | DrPanic => Some 101%N | DrDiverge | DrStuck => None end.
 
 Definition modelled_driver_shape : list dstep :=
-  [DHelp; DVersion; DNoInput; DAssemble; DNeedOutput; DUnwrap FDecls; DUnwrap FDefs; DUnwrap FIter; DGroups true; DReturnOk].
+  [DHelp true; DVersion true; DNoInput; DProgress true; DAssemble; DNeedOutput; DUnwrap FDecls; DUnwrap FDefs; DUnwrap FIter;
+   DGroups true true; DResolved true; DReturnOk].
+
+(* the driver before 0dfce82: println! everywhere (F64) *)
+Definition println_driver_shape : list dstep :=
+  [DHelp false; DVersion false; DNoInput; DProgress false; DAssemble; DNeedOutput; DUnwrap FDecls; DUnwrap FDefs; DUnwrap FIter;
+   DGroups false true; DResolved false; DReturnOk].
 
 (* ------------------------------------------------------------------ reading the tables regenerated from the source
    (tools/translate_c03.py emits plain strings / booleans only, so that Gen/Generated.v depends on nothing of the model) *)
@@ -509,13 +556,18 @@ Definition decode_shape (pre body post : list raw_call) (err_arm : list string) 
   end.
 
 Definition decode_dstep (s : string) : option dstep :=
-  if String.eqb s "help" then Some DHelp else if String.eqb s "version" then Some DVersion
-  else if String.eqb s "no_input" then Some DNoInput else if String.eqb s "assemble" then Some DAssemble
+  if String.eqb s "help print?" then Some (DHelp true) else if String.eqb s "help" then Some (DHelp false)
+  else if String.eqb s "version print?" then Some (DVersion true) else if String.eqb s "version" then Some (DVersion false)
+  else if String.eqb s "no_input" then Some DNoInput
+  else if String.eqb s "progress print?" then Some (DProgress true) else if String.eqb s "progress" then Some (DProgress false)
+  else if String.eqb s "assemble" then Some DAssemble
   else if String.eqb s "need_output" then Some DNeedOutput
   else if String.eqb s "unwrap decls" then Some (DUnwrap FDecls) else if String.eqb s "unwrap defs" then Some (DUnwrap FDefs)
   else if String.eqb s "unwrap iterations_taken" then Some (DUnwrap FIter)
   else if String.eqb s "unwrap ast" then Some (DUnwrap FAst)
-  else if String.eqb s "groups write?" then Some (DGroups true) else if String.eqb s "groups write" then Some (DGroups false)
+  else if String.eqb s "groups print? write?" then Some (DGroups true true) else if String.eqb s "groups print? write" then Some (DGroups true false)
+  else if String.eqb s "groups write?" then Some (DGroups false true) else if String.eqb s "groups write" then Some (DGroups false false)
+  else if String.eqb s "resolved print?" then Some (DResolved true) else if String.eqb s "resolved" then Some (DResolved false)
   else if String.eqb s "return_ok" then Some DReturnOk else None.
 
 Definition decode_driver (steps : list string) : option (list dstep) := map_opt decode_dstep steps.
